@@ -310,8 +310,11 @@ func run(c Case) (fs []failure, inconc string, facts map[string]bool, hist any) 
 			}
 			if j > prev+1 {
 				sig := "per-key-order-skips"
-				if c.Pipeline && redirects > 0 {
-					sig = "per-key-order-skips:pipelined-redirect"
+				if redirects > 0 && !c.Txn {
+					// known finding: a command answered MOVED / ASK is executed again at the indicated node AFTER later commands on the same key
+					// have already reached that node directly (pipelined: later batches dispatched after the slot map was refreshed; blocking: a
+					// later command of the same batch that was routed with the refreshed map)
+					sig = "per-key-order-skips:redirect-reexecution"
 				} else if tryagains > 0 && !c.Txn {
 					// known finding: a multi-key command answered TRYAGAIN (one of its keys already migrated) while a later single-key
 					// command of the same pipelined batch on the key that has not moved yet is executed by the same node
